@@ -175,6 +175,15 @@ def lopsided(kind, tier):
                     a = ["+"] * N
                     a[i] = a[j] = "-"
                     out.append("".join(a))
+    elif kind == "flank":
+        # a stretch of 7..17 neutral residues in front of (or behind) adjacent charge blocks with a tiny minority: the arrangements the
+        # few-neutrals search must not skip
+        for z in ((7, 9, 12, 17) if tier == "quick" else range(7, 18)):
+            for m in (1, 2):
+                for M in ((20, 40, 60) if tier == "quick" else (12, 20, 30, 40, 60, 80)):
+                    out.append("0" * z + "+" * m + "-" * M)
+                    out.append("-" * M + "+" * m + "0" * z)
+                    out.append("0" * (z // 2) + "+" * m + "-" * M + "0" * (z - z // 2))
     else:
         Ms = range(20, 72, 4) if tier == "quick" else range(12, 91)
         for m in range(1, 9):
@@ -208,6 +217,7 @@ def run(tier, seed, t0):
     sp, comps = sparse_shards(tier)
     shards += sp
     shards += [("LOP", kind, tier, i, 24) for kind in ("scatter", "block") for i in range(24)]
+    shards += [("LOP", "flank", tier, i, 16) for i in range(16)]
     shards = [("BIG", i) for i in range(len(BIG))] + shards
     shards += [("DB", (L_,)) for L_ in ((23, 41) if tier == "quick" else (17, 23, 31, 41, 61, 97))]
     acc = core.pmap(shard, shards)
@@ -219,7 +229,7 @@ def run(tier, seed, t0):
     return core.finish(
         PROP, tier, seed, acc, t0,
         rule="every charge pattern over {+,-,0} of length 1..%d in K/E/G spelling, plus ALL arrangements of %d sparse "
-             "compositions of total 10..20 (%s), plus lopsided neutral-free families (one minority residue at every position of a majority up to total 40/60, two at every pair up to 22/30; a minority block of 1..8 at offsets 0..6 inside a majority of 20..68/12..90; both signs), plus window-complete medium words, plus eight 260-340-residue patterns with more than 256 residues of one class; each state = one sequence, 3 real calls (get_kappa, get_delta, "
+             "compositions of total 10..20 (%s), plus lopsided neutral-free families (one minority residue at every position of a majority up to total 40/60, two at every pair up to 22/30; a minority block of 1..8 at offsets 0..6 inside a majority of 20..68/12..90; both signs; 7..17 neutral residues flanking adjacent blocks with a minority of 1-2 against 20-60), plus window-complete medium words, plus eight 260-340-residue patterns with more than 256 residues of one class; each state = one sequence, 3 real calls (get_kappa, get_delta, "
              "get_deltaMax; 6 with fresh-object repetition for length<=8) judged by clauses (a) -1 iff deltaMax==0, "
              "(b) kappa == clamp(delta/deltaMax), (c) kappa in {-1} U [0,1]; non-trivial = kappa != -1; outcomes = "
              "distinct kappa values" % (L, len(comps), "(1,n,1),(n,1,1),(1,1,n) slices" if tier == "quick"
